@@ -111,7 +111,7 @@ impl Prop for C10 {
             ctx.skip("ratio_den_noise");
         }
         for (name, x, y) in [("rer", a.rer, b.rer), ("rer_nrb", a.rer_nrb, b.rer_nrb), ("rer_onst", a.rer_onst, b.rer_onst)] {
-            ensure!(((x - y).abs() as f64) <= 2.0 * rt, "same_result", "{}: {} for the canonical file, {} for the rewritten one", name, x, y);
+            ensure!(((x - y).abs() as f64) <= 2.0 * rt * (1.0 + x.abs().max(y.abs()) as f64), "same_result", "{}: {} for the canonical file, {} for the rewritten one", name, x, y);
         }
         // DHW indicator
         match (fraccion_renovable_acs_nrb(&a), fraccion_renovable_acs_nrb(&b)) {
@@ -133,7 +133,7 @@ impl Prop for C10 {
             let r = ev(&again).map_err(|x| Failure::new("repeat", format!("the same input fails on the {}-th repetition: {}", i + 2, x)))?;
             compare_flats(&fa, &flat(&r), &sc, &CmpOpts { names: ("first run", "repetition"), sub: "repeatable", tol_mult: 2.0, ..Default::default() })?;
             for (name, x, y) in [("rer", a.rer, r.rer), ("rer_nrb", a.rer_nrb, r.rer_nrb), ("rer_onst", a.rer_onst, r.rer_onst)] {
-                ensure!(((x - y).abs() as f64) <= 2.0 * rt, "repeatable", "{}: {} then {}", name, x, y);
+                ensure!(((x - y).abs() as f64) <= 2.0 * rt * (1.0 + x.abs().max(y.abs()) as f64), "repeatable", "{}: {} then {}", name, x, y);
             }
         }
         if c.cli {
